@@ -39,6 +39,15 @@ namespace pgm {
 #define PGM_SUB_EPS(x, epsilon) ((x) <= (epsilon) ? 0 : ((x) - (epsilon)))
 #define PGM_ADD_EPS(x, epsilon, size) ((x) + (epsilon) + 2 >= (size) ? (size) : (x) + (epsilon) + 2)
 
+namespace internal {
+
+/** Converts a non-negative floating-point value to an integer type, saturating at @p max instead of overflowing,
+ * since converting an out-of-range floating-point value to an integer type is undefined behaviour. */
+template<typename T, typename F>
+inline T saturating_cast(F x, T max) { return x < F(max) ? T(x) : max; }
+
+}
+
 /**
  * A struct that stores the result of a query to a @ref PGMIndex, that is, a range [@ref lo, @ref hi)
  * centered around an approximate position @ref pos of the sought key.
@@ -266,11 +275,12 @@ struct PGMIndex<K, Epsilon, EpsilonRecursive, Floating>::Segment {
      * @return the approximate position of the specified key
      */
     inline size_t operator()(const K &k) const {
+        constexpr size_t max_pos = std::numeric_limits<decltype(intercept)>::max();
         size_t pos;
         if constexpr (std::is_same_v<K, int64_t> || std::is_same_v<K, int32_t>)
-            pos = size_t(slope * double(std::make_unsigned_t<K>(k) - key));
+            pos = internal::saturating_cast(slope * double(std::make_unsigned_t<K>(k) - key), max_pos);
         else
-            pos = size_t(slope * double(k - key));
+            pos = internal::saturating_cast(slope * double(k - key), max_pos);
         return pos + intercept;
     }
 };
